@@ -213,7 +213,7 @@ def conform(path, r=None, ratio=2):
     if len(r["dx"]) != fl + 1 or any(len(d) != r["ndims"] for d in r["dx"]):
         probs.append("cell-size lines")
     for lv, lev in enumerate(r["levels"]):
-        if lev["cell_path"] != f"Level_{lv}/Cell":
+        if not re.match(r"^[^/\s]+/Cell$", lev["cell_path"]) or not os.path.isdir(os.path.join(path, lev["cell_path"].split("/")[0])):
             probs.append(f"level {lv}: data path line {lev['cell_path']!r}")
         if "version" not in lev:
             continue
